@@ -9,6 +9,7 @@ import Hpfeeds.Model.BrokerFault
 import Hpfeeds.Lemmas.BrokerStore
 import Hpfeeds.Lemmas.BrokerDeliv
 import Hpfeeds.Lemmas.BrokerReg
+import Hpfeeds.Lemmas.BrokerFrame
 namespace Hpfeeds.Broker
 open Hpfeeds Extracted
 
@@ -412,5 +413,76 @@ theorem reg_runF (cfg : Cfg) (es : List (Store × List Nat × Event)) : Reg (run
   induction es with
   | nil => intro s h; exact h
   | cons e es ih => intro s h; exact ih _ (reg_stepF _ _ s e.2.2 h)
+
+/-! ### the frame property of C10 under write faults
+
+`Others c s s'` (Lemmas/BrokerFrame) relates every connection other than `c` to its old record by `OthersRel`.  Under
+faults the same holds for every connection whose OWN transport takes writes; a faulty one may in addition be closed by
+somebody else's publish - that is what "closes only that destination" means. -/
+
+def OthersF (F : Nat → Bool) (c : Nat) (s s' : State) : Prop :=
+  ∀ d, d ≠ c → F d = false → ∀ y, s.conn d = some y → ∃ y', s'.conn d = some y' ∧ OthersRel y y'
+
+theorem OthersF.refl (F : Nat → Bool) (c : Nat) (s : State) : OthersF F c s s :=
+  fun _ _ _ y h => ⟨y, h, OthersRel.refl y⟩
+
+theorem OthersF.trans {F : Nat → Bool} {c : Nat} {s1 s2 s3 : State} (h1 : OthersF F c s1 s2) (h2 : OthersF F c s2 s3) :
+    OthersF F c s1 s3 := by
+  intro d hd hF y hy
+  obtain ⟨y1, hy1, r1⟩ := h1 d hd hF y hy
+  obtain ⟨y2, hy2, r2⟩ := h2 d hd hF y1 hy1
+  exact ⟨y2, hy2, r1.trans r2⟩
+
+theorem OthersF.of_others {F : Nat → Bool} {c : Nat} {s s' : State} (h : Others c s s') : OthersF F c s s' :=
+  fun d hd _ y hy => h d hd y hy
+
+theorem othersFPresAt (F : Nat → Bool) (cfg : Cfg) (c : Nat) (s0 : State) : PresAt cfg c (OthersF F c s0) where
+  logAct := fun s a _ h => h.trans (.of_others (others_of_only (only_logAct s c a)))
+  closeT := fun s h => h.trans (.of_others (others_of_only (only_closeT s c)))
+  crashClose := fun s h => h.trans (.of_others (others_of_only (only_crashClose s c)))
+  doSubscribe := fun s ch ok _ _ _ _ _ _ h => h.trans (.of_others (others_of_only (only_doSubscribe s c ch ok)))
+  doUnsubscribe := fun s ch _ _ _ _ h => h.trans (.of_others (others_of_only (only_doUnsubscribe s c ch)))
+  setAuth := fun s i d row _ _ _ h => h.trans (.of_others (others_of_only (only_setAuth s c i d row)))
+  pauseReading := fun s h => h.trans (.of_others (others_of_only (only_pauseReading s c)))
+  resumeReading := fun s h => h.trans (.of_others (others_of_only (only_resumeReading s c)))
+  addPending := fun s _ _ h => h.trans (.of_others (others_of_only (only_upd s c _)))
+  dropPending := fun s _ h => h.trans (.of_others (others_of_only (only_upd s c _)))
+  setBuf := fun s _ h => h.trans (.of_others (others_of_only (only_upd s c _)))
+  publish := fun s x i ch p _ _ _ _ h => h.trans (.of_others (fun d _ y hy => publish_othersRel s c x i ch p d y hy))
+  addConn := fun s n _ h => h.trans (.of_others (others_of_only (only_addConn cfg s c n)))
+  peerClose := fun s h => h.trans (.of_others (others_of_only (only_peerClose s c)))
+  lostConn := fun s _ _ _ h => h.trans (.of_others (others_of_only (only_lostConn s c)))
+  armDeadline := fun s h => h.trans (.of_others (others_of_only (only_armDeadline s c)))
+  clearDeadline := fun s a _ h => h.trans (.of_others (others_of_only (only_clearDeadline s c a)))
+
+/-- a fan-out with faults relates every NON-faulty record exactly as the fault-free fan-out does -/
+theorem publishF_othersF (F : Nat → Bool) (s : State) (c : Nat) (x : Conn) (i ch p : Bytes) :
+    OthersF F c s (publishF F s c x i ch p) := by
+  intro d _ hF y hy
+  have hiso : (publishF F s c x i ch p).conn d = (publish s c x i ch p).conn d :=
+    foldl_deliverF_isolated F _ _ (nodup_eraseDups _) s hF
+  rw [hiso]
+  exact publish_othersRel s c x i ch p d y hy
+
+/-- ONE EVENT about connection `c` (or the clock) during which the transports in `F` refuse writes: every other
+    connection `d` whose own transport works keeps its record, except that OP_PUBLISH frames may be written to it if it
+    is open, and it may be forgotten if it is already closing - exactly the fault-free statement (`others_step`) -/
+theorem others_stepF (F : Nat → Bool) (cfg : Cfg) (s : State) (e : Event) (d : Nat) (y : Conn)
+    (hd : e.target ≠ some d) (hF : F d = false) (hy : s.conn d = some y) :
+    ∃ y', (stepF F cfg s e).conn d = some y' ∧ OthersRel y y' := by
+  cases ht : e.target with
+  | none =>
+    cases e <;> simp [Event.target] at ht
+    exact ⟨y, hy, OthersRel.refl y⟩
+  | some c =>
+    have hdc : d ≠ c := by intro h; apply hd; rw [ht, h]
+    have := pres_stepG_at (cfg := cfg) (P := OthersF F c s) (pub := publishF F) s e
+      (fun c' hc' => by rw [ht] at hc'; cases hc'; exact othersFPresAt F cfg c s)
+      (fun c' hc' s' x i ch p _ _ _ _ h => by
+        rw [ht] at hc'; cases hc'
+        exact h.trans (publishF_othersF F s' c x i ch p))
+      (fun ms _ h => h.trans (.of_others (others_of_only (fun _ _ => rfl))))
+      (OthersF.refl F c s)
+    exact this d hdc hF y hy
 
 end Hpfeeds.Broker
